@@ -344,7 +344,7 @@ def mutate_same_counts(b, obj, universe, rng, temporal=False, times=(0,)):
     if recs:
         ways += ["replace_hyperedge"] * 3
     if isolated and absent:
-        ways += ["swap_isolated_node"] * 2
+        ways += ["swap_isolated_node"] * 4
     if not ways:
         return None
     how = rng.choice(ways)
@@ -376,14 +376,14 @@ def mutate_same_counts(b, obj, universe, rng, temporal=False, times=(0,)):
 
 def reobs_inputs(tier, rng):
     out = []
-    for i in range(36 if tier == "quick" else 900):
+    for i in range(24 if tier == "quick" else 900):
         n = rng.randint(3, 6)
         out.append((n, random_edges(n, rng, m=rng.randint(1, 7), maxsize=4), i % 3 == 0, FAMS[i % 4]))
     return out
 
 
 def reobs_temp_inputs(tier, rng):
-    return [it for it in temp_inputs(tier, rng)][:24 if tier == "quick" else 600]
+    return [it for it in temp_inputs(tier, rng)][:16 if tier == "quick" else 600]
 
 
 def _reobserve(kind, it, rng):
@@ -486,12 +486,9 @@ def run(tier, seed):
     if tier != "quick":
         import multiprocessing as mp
         pool = mp.get_context("fork").Pool(12)
+    groups = (("hg", hin), ("temp", tin), ("hgre", reobs_inputs(tier, rng)),
+              ("tempre", reobs_temp_inputs(tier, rng)), ("hub", hub_inputs(tier, rng)))
     try:
-        # rounds bound the memory: observe a slice (in parallel), validate it, keep only rejections and samples
-        for kind, items in (("hg", hin), ("temp", tin), ("hgre", reobs_inputs(tier, rng)),
-                            ("tempre", reobs_temp_inputs(tier, rng)), ("hub", hub_inputs(tier, rng))):
-            for start in range(0, len(items), ROUND):
-                _round(res, kind, seed, start, items[start:start + ROUND], pool, agg)
         # non-integer weights (quarters), weighted incidence only
         qrng = random.Random(seed * 31 + 7)
         qc, qd = [], []
@@ -502,7 +499,28 @@ def run(tier, seed):
             b = Binding("hg", LABEL_FAMILIES[fam](n), qrng)
             qc.append(quarter_case(b, n, es, qrng))
             qd.append({"kind": "hgq", "n": n, "hyperedges": [list(e) for e in es], "family": fam, "labels": b.labels})
-        v = K.run_cases("Trace_C09", qc, {"Kind": "hg"}, procs=4)
+        if tier == "quick":
+            # few cases of every kind: observe everything, then let the validator runs of all kinds share the cores
+            import concurrent.futures as cf
+            t0 = time.time()
+            obs = [(kind,) + _observe(kind, seed, 0, items, None) for kind, items in groups]
+            agg["t_py"] += time.time() - t0
+            t0 = time.time()
+            share = {"hg": 7, "hgre": 3, "hub": 4, "temp": 2, "tempre": 2}
+            with cf.ThreadPoolExecutor(max_workers=len(obs) + 1) as ex:
+                futs = [ex.submit(_validate, kind, cases, share[kind]) for kind, cases, _ in obs]
+                qf = ex.submit(K.run_cases, "Trace_C09", qc, {"Kind": "hg"}, 2)
+                vs = [f.result() for f in futs]
+                v = qf.result()
+            agg["t_tlc"] += time.time() - t0
+            for (kind, cases, descr), vk in zip(obs, vs):
+                _digest(res, kind, seed, cases, descr, vk, agg)
+        else:
+            # rounds bound the memory: observe a slice (in parallel), validate it, keep only rejections and samples
+            for kind, items in groups:
+                for start in range(0, len(items), ROUND):
+                    _round(res, kind, seed, start, items[start:start + ROUND], pool, agg)
+            v = K.run_cases("Trace_C09", qc, {"Kind": "hg"}, procs=4)
         for idx, failed in v["rejects"]:
             d = qd[idx]
             res.reject({"clauses": failed, "labels": d["family"] if d["family"] == "zero" else "other"},
@@ -543,18 +561,30 @@ def run(tier, seed):
 ROUND = 6000
 
 
-def _round(res, kind, seed, start, items, pool, agg):
-    t0 = time.time()
-    tkind = "temp" if kind in ("temp", "tempre") else "hg"
+def _observe(kind, seed, start, items, pool):
     jobs = [(kind, seed, start + i, items[i:i + 250]) for i in range(0, len(items), 250)]
     outs = pool.map(_observe_chunk, jobs, chunksize=1) if pool is not None else [_observe_chunk(j) for j in jobs]
-    cases = [c for cs, _ in outs for c in cs]
-    descr = [d for _, ds in outs for d in ds]
+    return [c for cs, _ in outs for c in cs], [d for _, ds in outs for d in ds]
+
+
+def _validate(kind, cases, procs=14):
+    n = len(cases)
+    return K.run_cases("Trace_C09", cases, {"Kind": "temp" if kind in ("temp", "tempre") else "hg"}, procs=procs,
+                       per_batch=1 if kind == "hub" else min(450, max(10, n // procs + 1)))
+
+
+def _round(res, kind, seed, start, items, pool, agg):
+    t0 = time.time()
+    cases, descr = _observe(kind, seed, start, items, pool)
     agg["t_py"] += time.time() - t0
     t0 = time.time()
-    v = K.run_cases("Trace_C09", cases, {"Kind": tkind}, procs=14,
-                    per_batch=1 if kind == "hub" else min(450, max(10, len(cases) // 14 + 1)))
+    v = _validate(kind, cases)
     agg["t_tlc"] += time.time() - t0
+    _digest(res, kind, seed, cases, descr, v, agg)
+
+
+def _digest(res, kind, seed, cases, descr, v, agg):
+    tkind = "temp" if kind in ("temp", "tempre") else "hg"
     for idx, failed in v["rejects"]:
         d = descr[idx]
         raised = sorted({r.get("exc", "") for r in _records(cases[idx]) if r.get("raised")})
